@@ -369,6 +369,7 @@ class LQR(nn.Module):
         cost = torch.zeros(self.n_batch, **self.dargs)
         x = torch.zeros(self.n_batch + (self.T+1, ns), **self.dargs)
         xt = x[..., 0, :] = x_init
+        self.system.reset()    # roll out from t = 0: a system whose clock set_refpoint leaves alone (NLS) is at T-1 here
 
         for t in range(self.T):
             Kt, kt = K[...,t,:,:], k[...,t,:]
